@@ -143,10 +143,16 @@ PROPS = {
         partial=['prompt_abort (block ends in the time step of the first failure) is not proved: judge + correspondence only'],
     ),
     'C06': dict(
-        gen=['Scope'], props=['C06'], model=['Machine/Run', 'Machine/Step', 'Machine/Kernel', 'Judge/Judges'], harness='c06',
+        gen=['Scope'], props=['C06', 'MachineTasks'],
+        model=['Machine/Run', 'Machine/Step', 'Machine/Kernel', 'Judge/Judges', 'Prim/Task', 'Lemmas/PushBucket', 'Lemmas/KView', 'Lemmas/KStepFrames',
+               'Lemmas/KStep', 'Lemmas/QView', 'Lemmas/QStepFrames', 'Lemmas/QStep'], harness='c06',
         trusted_base=KERNEL_TB + MACHINE_TB + ['coroutine skeletons pinned by regenerated templates (context.py, task.py, timing/notification/condition/flag, tracked.py)'],
         assumptions=['valid programs only: the generators avoid usage errors (past at= dates, negative delays, inverting a Moment)'],
-        partial=['the projection of machine steps onto lifecycle actions is not proved (tied by correspondence)'],
+        partial=['Props/MachineTasks.lean proves on the whole machine, for every program and every number of steps, that the phase of a task '
+                 '(created, running, finished) never decreases, that a finished task stays finished and that a task keeps its coroutine, '
+                 'parent, volatility and done condition; that the stored outcome itself never changes is false of model and code (F18) and '
+                 'holds only for histories in which no clean-up raises while the task is being closed (result_stable_partial); '
+                 'the projection of machine steps onto lifecycle actions is not proved (tied by correspondence)'],
     ),
     'C07': dict(
         gen=['Scope', 'Timing'], props=['C07', 'C02', 'Skeletons'], model=['Machine/Run', 'Machine/Step', 'Machine/Kernel', 'Judge/Judges'], harness='c07',
@@ -358,7 +364,7 @@ MANIFEST_TEXT = {
         technique='Lean 4 theorems (decision logic / per-primitive / frame level) + exact whole-machine differential traces + Lean trace judge',
         design_ref='6 (C05), 3, 4.B'),
     'C06': dict(
-        level='Lean 4 theorems: status_forward, result_write_once/result_stable, cancel_created_runs_nothing, cancel_finished_noop, cancel_suspended, done_has_result over an open lifecycle model, for every action sequence. The executable whole-machine model reproduces the real usim to the turn on scope trees and random valid programs with faults at every activation boundary; the Lean judge checks on every implementation trace: status samples monotone, awaiters agree, cancel-before-start runs nothing, cancel of a suspended task ends it in that time step, TaskCancelled carries a passed token.',
+        level='Lean 4 theorems: on the whole machine, for every program and every number of steps: World.status_forward (the phase created/running/finished of a task never decreases), finished_forever, task_identity (Props/MachineTasks.lean, by a per-function inventory of everything that writes the task and coroutine tables). Over an open lifecycle model (non-atomic close, swallowed cancellations), for every action sequence: status_forward, result_write_once/result_stable/result_stable_from_init (the outcome never changes once `done` is set), result_overwritten_while_closing (the F18 witness: the stored outcome does change before `done` is set), cancel_created_runs_nothing, cancel_finished_noop, cancel_suspended, done_has_result. The executable whole-machine model reproduces the real usim to the turn on scope trees and random valid programs with faults at every activation boundary; the Lean judge checks on every implementation trace: status samples monotone, awaiters agree, cancel-before-start runs nothing, cancel of a suspended task ends it in that time step, TaskCancelled carries a passed token.',
         note='trusted: Lean kernel + standard axioms; templates/translator; whole-machine model tied by exact traces; the projection of machine steps onto lifecycle actions is not proved (tied by correspondence)',
         technique='Lean 4 theorems (decision logic / per-primitive / frame level) + exact whole-machine differential traces + Lean trace judge',
         design_ref='6 (C06), 3, 4.B'),
